@@ -90,6 +90,8 @@ class Report:
                 if not any(k == key for k, _ in self.known):
                     self.known.append((key, kf.get('what', what)))
                 return
+        if any(k == key for k, _, _ in self.violations):
+            return          # one report per structural key
         os.makedirs(os.path.join(EVID, 'replay'), exist_ok=True)
         path = os.path.join(EVID, 'replay', f'{getattr(self, "vprefix", self.pid)}-{len(self.violations)}.json')
         json.dump(dict(property=self.pid, key=key, what=what, witness=replay_obj), open(path, 'w'), indent=1, default=str)
